@@ -169,6 +169,40 @@ func Implementers(reg Registry, iface reflect.Type) []string {
 	return out
 }
 
+// One table of instrumented middlewares for every API value this process builds: each API value gets a prefix of it
+// (API{Middlewares: table[:n]}), as a program with a public and an admin API would slice one table. The elements
+// past a prefix belong to the longer views; whoever writes there (an append on the caller's slice) changes another
+// API value's stack. The call-backs report to the recorder of the group that is running.
+var (
+	mwTable  []func(http.Handler) http.Handler
+	mwRec    *Recorder
+	mwReg    Registry
+	mwTableN = 8
+)
+
+func sharedMws(n int, reg Registry, rec *Recorder) []func(http.Handler) http.Handler {
+	mwRec, mwReg = rec, reg
+	if n > mwTableN {
+		mwTableN, mwTable = n, nil
+	}
+	if mwTable == nil {
+		mwTable = make([]func(http.Handler) http.Handler, mwTableN)
+		for i := 1; i <= mwTableN; i++ {
+			i := i
+			mwTable[i-1] = func(next http.Handler) http.Handler {
+				return http.HandlerFunc(func(w http.ResponseWriter, r *http.Request) {
+					rec := mwRec
+					tmpl, has := schemaPath(mwReg, r)
+					rec.Emit(Event{"ev": "MwEnter", "i": i, "tmpl": tmpl, "has": has, "case": caseOf(r)})
+					next.ServeHTTP(w, r)
+					rec.Emit(Event{"ev": "MwLeave", "i": i, "case": caseOf(r)})
+				})
+			}
+		}
+	}
+	return mwTable[:n]
+}
+
 // NewAPI builds an API value with recording call-backs.
 func NewAPI(reg Registry, cfg APIConfig, rec *Recorder) (http.Handler, error) {
 	apiT, ok := reg.Types["API"]
@@ -221,19 +255,7 @@ func NewAPI(reg Registry, cfg APIConfig, rec *Recorder) (http.Handler, error) {
 		}))
 	}
 	if f := api.FieldByName("Middlewares"); f.IsValid() && cfg.Mw > 0 {
-		var mws []func(http.Handler) http.Handler
-		for i := 1; i <= cfg.Mw; i++ {
-			i := i
-			mws = append(mws, func(next http.Handler) http.Handler {
-				return http.HandlerFunc(func(w http.ResponseWriter, r *http.Request) {
-					tmpl, has := schemaPath(reg, r)
-					rec.Emit(Event{"ev": "MwEnter", "i": i, "tmpl": tmpl, "has": has, "case": caseOf(r)})
-					next.ServeHTTP(w, r)
-					rec.Emit(Event{"ev": "MwLeave", "i": i, "case": caseOf(r)})
-				})
-			})
-		}
-		f.Set(reflect.ValueOf(mws))
+		f.Set(reflect.ValueOf(sharedMws(cfg.Mw, reg, rec)))
 	}
 	// authenticators
 	for _, s := range cfg.Schemes {
